@@ -55,6 +55,19 @@ def r1(repo, res, canon, pc, logic):
     stores, others = map_stores(f, m)
     plan = f.params[3]
     src = "%s[%s.id]" % (IDLE, plan)
+    # locals that hold the verdict of _provision_resources (whatever they are called)
+    ldefs = {}
+    for n in walk_no_nested(f.node):
+        if isinstance(n, ast.Assign):
+            for t in n.targets:
+                if isinstance(t, ast.Name):
+                    ldefs.setdefault(t.id, []).append(n)
+    flags = set()
+    for nm, ds in ldefs.items():
+        real_ = [d for d in ds if not isinstance(d.value, ast.Constant)]
+        if real_ and all(isinstance(d.value, ast.Call) and call_name(d.value) == '_provision_resources' for d in real_) \
+                and all(d.value.value in (False, None) for d in ds if isinstance(d.value, ast.Constant)):
+            flags.add(nm)
     if not stores:
         res.bad('C09.R1', f, None, 'no allocation store', 'BatchProcessing never proposes an allocation')
     for n, k, v in stores:
@@ -73,15 +86,14 @@ def r1(repo, res, canon, pc, logic):
             for i, e in enumerate(p.events):
                 if e.node is n:
                     must = path_must(logic, p, i, depth=0)
-                    if not any(l.pol and l.atom.startswith('truthy(') and 'provision' in l.atom for l in must):
+                    if not any(l.pol and l.atom.startswith('truthy(') and (
+                            l.atom[7:-1] in flags or '._provision_resources(' in l.atom) for l in must):
                         okp = False
         (res.ok if okp else res.bad)('C09.R1', f, n, what, short(V, 100) if okp else
                                      'the allocation is made on a path that has not established that the observation is provisioned')
     # `provision` is the verdict of _provision_resources
-    defs = [n for n in walk_no_nested(f.node) if isinstance(n, ast.Assign) and any(
-        isinstance(t, ast.Name) and t.id == 'provision' for t in n.targets)]
-    real = [d for d in defs if not isinstance(d.value, ast.Constant)]
-    okd = bool(real) and all(isinstance(d.value, ast.Call) and call_name(d.value) == '_provision_resources' for d in real)
+    real = [d for nm in sorted(flags) for d in ldefs[nm] if not isinstance(d.value, ast.Constant)]
+    okd = bool(flags)
     (res.ok if okd else res.bad)('C09.R1', f, real[0] if real else None, '`provision` is the verdict of _provision_resources',
                                  'ok' if okd else 'the provisioned flag no longer comes from _provision_resources')
 
